@@ -328,7 +328,8 @@ theorem graphProg_error_of_body (o : Opts) (d : Nat) (m : ModelP) (fn : String) 
       ∃ e, graphBody o rec m.graph st = .error e) :
     ∃ e, graphProg o d m fn indent st = .error e := by
   unfold graphProg
-  obtain ⟨e, he⟩ := h (translateNode o m.opsets d indent) { st with remaps := [] :: st.remaps } (fun _ _ => rfl)
+  obtain ⟨e, he⟩ := h (translateNode o m.opsets d indent)
+    { st with remaps := [] :: st.remaps, namesRead := m.graph.outputs ++ namesReadBy d m.graph.nodes } (fun _ _ => rfl)
   simp only [he]
   exact ⟨e, rfl⟩
 
@@ -336,11 +337,11 @@ theorem translateGraph_error_of_body (o : Opts) (d : Nat) (m : ModelP)
     (h : ∀ indent rec st, (∀ n st, rec n st = translateNode o m.opsets d indent n st) →
       ∃ e, graphBody o rec m.graph st = .error e) :
     ∃ e, exportModel o d m = .error e := by
-  unfold exportModel translateGraph
+  unfold exportModel exportModelT translateGraph
   split
   · exact ⟨_, rfl⟩
   · obtain ⟨e, he⟩ := graphProg_error_of_body o d m m.funName
-      (if o.skipInit then 2 else 1) {} (h _)
+      (if o.skipInit then 2 else 1) { uniq := reservedTable (reservedNames [] [m.opsets] []) } (h _)
     simp only [he]
     exact ⟨e, rfl⟩
 
@@ -758,9 +759,10 @@ structure Plain (st : St) : Prop where
   attr : st.attrRen = []
   remap : QuietRemaps st
   consts : st.constants = []
+  fns : st.localFns = []
 
 theorem plain_uniq {st : St} (h : Plain st) (T : List (String × String)) : Plain { st with uniq := T } :=
-  ⟨h.attr, h.remap, h.consts⟩
+  ⟨h.attr, h.remap, h.consts, h.fns⟩
 
 theorem translateVar_uniq (o : Opts) (hr : o.rename = false) (st : St) (hq : Plain st) (v : String) :
     translateVar o st v = (pyT (uniqReq st.uniq v) v, { st with uniq := uniqReq st.uniq v }) := by
@@ -811,6 +813,6 @@ theorem outNames_uniq (o : Opts) (hr : o.rename = false) :
     rw [this]
 
 
-theorem plain_empty : Plain ({} : St) := ⟨rfl, fun _ => rfl, rfl⟩
+theorem plain_empty : Plain ({} : St) := ⟨rfl, fun _ => rfl, rfl, rfl⟩
 
 end OV.C13
